@@ -66,6 +66,7 @@ fn draw_plan(rng: &mut Prng, n: usize, shared_key_seed: [u8; 32], nseeds: usize,
         switch_exp: if rng.chance(1, 8) { None } else { Some(*rng.pick(&[7u32, 8, 9, 10, 11, 12, 13, 14, 16])) },
         boundary: rng.below(257) as u32,
         threads,
+        align: None,
     }
 }
 
@@ -325,7 +326,7 @@ fn deep_run(seed: u64, run: u64, shared: &world::KeyEntry<V512>) -> RunOutcome {
     while k < 30 && (yields >> k) > budget {
         k += 1;
     }
-    let plan = WorldPlan { n: 512, key_seeds: vec![shared.seed], sched_seed: rng.next_u64(), switch_exp: Some(k), boundary: 64, threads };
+    let plan = WorldPlan { n: 512, key_seeds: vec![shared.seed], sched_seed: rng.next_u64(), switch_exp: Some(k), boundary: 64, threads, align: None };
     let v = run_plan::<V512>(&plan, keys, true);
     out.stats = v.stats;
     out.stats.inc("runs");
